@@ -50,11 +50,22 @@ def plaw(s, k, n):
     return k * s**n
 
 
+def plaw1(s, k):
+    return k * s
+
+
 def build(net, n1, n2, pars, ia=False):
     from mxlpy import InitialAssignment, Model
 
     m = Model()
     c, k1, k2 = pars
+    if net == "closed":
+        # closed pair x <-> y (linear): the steady state depends on the total x + y, i.e. on the start values
+        m.add_variables({"x": 0.75, "y": 0.25})
+        m.add_parameters({"c": c, "k1": k1, "k2": k2})
+        m.add_reaction("v1", plaw1, args=["x", "k1"], stoichiometry={"x": -1, "y": 1})
+        m.add_reaction("v2", plaw1, args=["y", "k2"], stoichiometry={"y": -1, "x": 1})
+        return m
     if net == "chain":
         # with ia: x starts at 2*k1 (an initial assignment over a parameter that is also scanned)
         m.add_variables({"x": InitialAssignment(fn=_twice, args=["k1"]) if ia else 1.0, "y": 1.0})
@@ -95,6 +106,11 @@ def generate(tier):
             if mode == "parallel" and tier == "quick" and not (norm and start == "default"):
                 continue
             cases.append({"routine": "response_coefficients", "net": net, "n1": n1, "n2": n2, "pars": list(pars), "normalized": norm, "start": start, "mode": mode})
+    # a closed pair: the steady state depends on the start values in force (the model's own or the supplied ones)
+    for pars, norm, start, mode in it.product(rc_pars, (True, False), ("default", "supplied"), ("sequential", "parallel")):
+        if mode == "parallel" and tier == "quick" and not norm:
+            continue
+        cases.append({"routine": "response_coefficients", "net": "closed", "n1": 1.0, "n2": 1.0, "pars": list(pars), "normalized": norm, "start": start, "mode": mode})
     # Monte-Carlo wrappers: one block per row of the sample table, each at that row's parameters and start values
     for rt, (n1, n2), norm, table, state in it.product(("mc.variable_elasticities", "mc.parameter_elasticities", "mc.response_coefficients"),
                                                        rc_orders, (True, False), ("par", "init", "both", "ia"), (None, "supplied")):
@@ -267,9 +283,19 @@ def check(case):
             names = m.get_variable_names()
             if case["start"] == "supplied":
                 start = dict.fromkeys(names, 3.0)
-            to_scan = ["c", "k1", "k2"]
+            to_scan = ["c", "k1", "k2"] if case["net"] != "closed" else ["k1", "k2"]
             got = mca.response_coefficients(m, to_scan=to_scan, variables=start, normalized=norm, parallel=case["mode"] == "parallel", max_workers=2, disable_tqdm=True)
-            if case["net"] == "chain":
+            if case["net"] == "closed":
+                tot = 6.0 if start is not None else 1.0  # the total is set by the start values in force
+                s_ = k1 + k2
+                xs, ys = tot * k2 / s_, tot * k1 / s_
+                dx = {"k1": -tot * k2 / s_**2, "k2": tot * k1 / s_**2}
+                dy = {"k1": tot * k2 / s_**2, "k2": -tot * k1 / s_**2}
+                j = tot * k1 * k2 / s_
+                dj = {"k1": tot * k2 * k2 / s_**2, "k2": tot * k1 * k1 / s_**2}
+                expv = {"x": (xs, dx), "y": (ys, dy)}
+                expf = {"v1": (j, dj), "v2": (j, dj)}
+            elif case["net"] == "chain":
                 xs = (c / k1) ** (1 / n1)
                 ys = (c / k2) ** (1 / n2)
                 dx = {"c": xs / (n1 * c), "k1": -xs / (n1 * k1), "k2": 0.0}
